@@ -38,9 +38,9 @@ def _routes(ctx, binp, path, label, chunk=0):
     res = json.load(open(out))
     res["mismatches"] = res.get("mismatches") or []
     ctx.replayed += res["behaviours"]
-    ctx.log("%s: %d behaviours (%d requests through the live leader), %d x 3 further routes compared by full dump, chunk size %s: %d mismatch class(es); "
-            "%d notification batches differ in their stored encoding only" %
-            (label, res["behaviours"], res["steps"], res["routes"], chunk or "default", len(res["mismatches"]), res["notification_encodings_differing"]))
+    ctx.log("%s: %d sequences (%d requests through the live leader) x route choices = %d behaviours, each: leader vs WAL replay vs follower vs "
+            "snapshot-installed follower by full dump, chunk size %s: %d mismatch class(es); %d notification batches differ in their stored encoding only" %
+            (label, res["sequences"], res["steps"], res["routes"], chunk or "default", len(res["mismatches"]), res["notification_encodings_differing"]))
     for i, mm in enumerate(res["mismatches"]):
         p = ctx.save_replay("c06-%s-%d.json" % (label, i), mm)
         if mm.get("kind") == "routes":
@@ -67,19 +67,20 @@ def run(ctx):
     binp = ctx.go_build("routecheck")
     w = 4 if quick else 8
     # sequences x every (cut, lag) the last level offers
-    path, n, _ = _db.tlc_export(ctx, "db-c06-runs.cfg", "RUN", "runs", simulate="num=%d" % (30 if quick else 150), depth=12, workers=w)
+    path, n, _ = _db.tlc_export(ctx, "db-c06-runs.cfg", "RUN", "runs", simulate="num=%d" % (30 if quick else 80), depth=12, workers=w)
     _routes(ctx, binp, path, "mixed", 0)
     with open(path) as f:
         beh = json.loads(f.readline())
     ctx.samples.append({"kind": "sequence + routes chosen by TLC, executed on real leader / WAL replay / follower / snapshot", "requests": _db.show_beh(beh[:-1]),
                         "cut_after_offset": beh[-1]["off"], "commit_lag": beh[-1]["ts"]})
     if not quick:
-        _routes(ctx, binp, path, "mixed-smallchunks", 300)
-    path, n, _ = _db.tlc_export(ctx, "db-c06-runs-big.cfg", "RUN", "runs-big", simulate="num=%d" % (1 if quick else 8), depth=8, workers=w)
+        path2, n2, _ = _db.tlc_export(ctx, "db-c06-runs.cfg", "RUN", "runs2", simulate="num=20", depth=12, workers=w)
+        _routes(ctx, binp, path2, "mixed-smallchunks", 300)
+    path, n, _ = _db.tlc_export(ctx, "db-c06-runs-big.cfg", "RUN", "runs-big", simulate="num=%d" % (1 if quick else 4), depth=8, workers=w)
     _routes(ctx, binp, path, "prepopulated", 512)
 
     # random streams
-    nt = 150 if quick else 1500
+    nt = 150 if quick else 1000
     tp = os.path.join(ctx.scratch, "trace-routes.ndjson")
     out = os.path.join(ctx.scratch, "drive.json")
     ctx.run([binp, "drive", "-seed", str(ctx.seed), "-n", str(nt), "-ops", "20", "-chunk", "1024", "-out", tp, "-res", out])
